@@ -74,9 +74,23 @@ func (g *gen) num(d int) {
 	case k < 68:
 		// immediate lambda
 		g.e.open()
+		// ((lambda (x) ...) x): the argument reads the outer x
+		outerBefore := map[string]*bind{}
+		for s := g.sc; s != nil; s = s.parent {
+			for _, b := range s.vars {
+				if outerBefore[b.name] == nil && g.lookup(b.name) == b {
+					outerBefore[b.name] = b
+				}
+			}
+		}
 		params := g.lambda(d-1, 1+g.intn(2))
-		for range params {
-			g.num(d - 1)
+		for _, p := range params {
+			if ob := outerBefore[p.name]; ob != nil && isNumVar(ob) && ob.ready && !g.avoid[ob.name] && g.chance(70) {
+				g.feat("lambda-arg-reads-shadowed")
+				g.ref(cand{ob, false}, "arg-of-same-name")
+			} else {
+				g.num(d - 1)
+			}
 		}
 		g.e.close()
 	case k < 72:
